@@ -1,5 +1,5 @@
 target('c23_latency', 'engines/comp/c23_latency.cpp', extra_src=['$REPO/bluetoe/link_layer/delta_time.cpp'],
-       quick=dict(cases=100000, size=120), thorough=dict(cases=3000000, size=200))
+       quick=dict(cases=200000, size=120), thorough=dict(cases=3000000, size=200))
 # NOTE: the link-layer level harness of C23 (engines/ll) is registered by its own fragment; if that fragment calls prop('C23', ...)
 # it has to list 'c23_latency' as well (fragments are executed in path order, the later prop() wins).
 prop('C23', ['c23_latency'] + [t for t in PROPERTIES.get('C23', {}).get('targets', []) if t != 'c23_latency'], 'comp',
